@@ -106,13 +106,7 @@ func (in *inliner) inlinable(fd *ast.FuncDecl, info *types.Info) bool {
 		}
 		return ok
 	})
-	if fd.Type.Results != nil {
-		for _, fl := range fd.Type.Results.List {
-			if len(fl.Names) > 0 { // named results: bare returns / deferred writes
-				ok = false
-			}
-		}
-	}
+	// named results are handled only by expandAssignMulti (results substituted by the assignment's targets)
 	for _, fl := range fd.Type.Params.List {
 		if _, variadic := fl.Type.(*ast.Ellipsis); variadic {
 			ok = false
@@ -188,6 +182,13 @@ func (in *inliner) host(info *types.Info, pkg *types.Package, host *ast.FuncDecl
 								out = append(out, pre...)
 								x.Rhs = rets
 								out = append(out, x)
+								in.done++
+								continue
+							}
+							if blk := in.expandAssignMulti(info, x, call, fd); blk != nil {
+								usedHere[o] = true
+								in.p.inlRanges = append(in.p.inlRanges, inlRange{fd.Body.Pos(), fd.Body.End(), host.Pos(), host.End()})
+								out = append(out, blk...)
 								in.done++
 								continue
 							}
@@ -310,6 +311,9 @@ func (in *inliner) pure(info *types.Info, e ast.Expr) bool {
 
 // expandStmt handles shapes R and S.
 func (in *inliner) expandStmt(info *types.Info, call *ast.CallExpr, fd *ast.FuncDecl, shape string) []ast.Stmt {
+	if len(namedResults(fd, info)) > 0 {
+		return nil
+	}
 	subst, binds, fresh, ok := in.bindings(info, call, fd)
 	if !ok {
 		return nil
@@ -401,6 +405,9 @@ func nestGuards(list []ast.Stmt) []ast.Stmt {
 
 // expandAssign handles shape A: body without its single trailing return, and the returned expressions.
 func (in *inliner) expandAssign(info *types.Info, call *ast.CallExpr, fd *ast.FuncDecl) ([]ast.Stmt, []ast.Expr) {
+	if len(namedResults(fd, info)) > 0 {
+		return nil, nil
+	}
 	rets := returnsIn(fd.Body)
 	body := fd.Body.List
 	if len(rets) != 1 || len(body) == 0 || body[len(body)-1] != ast.Stmt(rets[0]) || len(rets[0].Results) == 0 {
@@ -442,7 +449,7 @@ func (in *inliner) exprCalls(info *types.Info, pkg *types.Package, host *ast.Fun
 			if e, ok := v.Interface().(ast.Expr); ok && v.CanSet() {
 				if call, ok := unparen(e).(*ast.CallExpr); ok {
 					if o := staticCallee(info, call); o != nil && o != hostObj && in.pkgOf[o] == pkg {
-						if fd := in.decls[o]; fd != nil && len(fd.Body.List) == 1 {
+						if fd := in.decls[o]; fd != nil && len(fd.Body.List) == 1 && len(namedResults(fd, info)) == 0 {
 							if r, ok := fd.Body.List[0].(*ast.ReturnStmt); ok && len(r.Results) == 1 {
 								if subst, binds, fresh, ok := in.bindings(info, call, fd); ok && len(binds) == 0 {
 									cl := &cloner{info: info, subst: subst, fresh: fresh, lo: fd.Pos(), hi: fd.End()}
@@ -594,4 +601,150 @@ func (cl *cloner) fill(dst, src reflect.Value) {
 			dst.Field(i).Set(f)
 		}
 	}
+}
+
+func namedResults(fd *ast.FuncDecl, info *types.Info) []types.Object {
+	var out []types.Object
+	if fd.Type.Results == nil {
+		return nil
+	}
+	for _, fl := range fd.Type.Results.List {
+		for _, n := range fl.Names {
+			out = append(out, info.Defs[n])
+		}
+	}
+	return out
+}
+
+// expandAssignMulti handles `a, b := f(args)` / `a, b = f(args)` / `a := f(args)` where f has several returns in guard-clause
+// shape (each `return` is the last statement of the body or of an else-less `if` standing directly in a statement list):
+// every `return x, y` becomes `a, b = x, y` and the statements after a returning `if` move into its else branch. Named
+// results of f are the assignment's targets themselves.
+func (in *inliner) expandAssignMulti(info *types.Info, as *ast.AssignStmt, call *ast.CallExpr, fd *ast.FuncDecl) []ast.Stmt {
+	named := namedResults(fd, info)
+	nres := 0
+	if fd.Type.Results != nil {
+		for _, fl := range fd.Type.Results.List {
+			if len(fl.Names) == 0 {
+				nres++
+			} else {
+				nres += len(fl.Names)
+			}
+		}
+	}
+	if nres == 0 || nres != len(as.Lhs) || (len(named) != 0 && len(named) != nres) {
+		return nil
+	}
+	var targets []*ast.Ident
+	for _, l := range as.Lhs {
+		id, ok := l.(*ast.Ident)
+		if !ok {
+			return nil
+		}
+		targets = append(targets, id)
+	}
+	if !guardOnlyVals(fd.Body.List, nres, len(named) > 0) {
+		return nil
+	}
+	subst, binds, fresh, ok := in.bindings(info, call, fd)
+	if !ok {
+		return nil
+	}
+	for i, o := range named {
+		if o != nil && targets[i].Name != "_" {
+			subst[o] = targets[i]
+		}
+	}
+	cl := &cloner{info: info, subst: subst, fresh: fresh, lo: fd.Pos(), hi: fd.End()}
+	var copied []ast.Stmt
+	for _, s := range fd.Body.List {
+		copied = append(copied, cl.node(reflect.ValueOf(s)).Interface().(ast.Stmt))
+	}
+	mkTarget := func(i int) ast.Expr {
+		id := &ast.Ident{NamePos: targets[i].NamePos, Name: targets[i].Name}
+		if o := info.Defs[targets[i]]; o != nil {
+			info.Uses[id] = o
+		} else if o := info.Uses[targets[i]]; o != nil {
+			info.Uses[id] = o
+		}
+		if tv, ok := info.Types[targets[i]]; ok {
+			info.Types[id] = tv
+		}
+		return id
+	}
+	var conv func(list []ast.Stmt) []ast.Stmt
+	conv = func(list []ast.Stmt) []ast.Stmt {
+		var out []ast.Stmt
+		for i, s := range list {
+			switch x := s.(type) {
+			case *ast.ReturnStmt:
+				if len(x.Results) == nres {
+					// drop `a = a` produced by returning a named result
+					var lhs, rhs []ast.Expr
+					for k, r := range x.Results {
+						if id, ok := unparen(r).(*ast.Ident); ok && id == targets[k] {
+							continue
+						}
+						if id, ok := unparen(r).(*ast.Ident); ok && info.Uses[id] != nil && (info.Uses[id] == info.Defs[targets[k]] || info.Uses[id] == info.Uses[targets[k]]) {
+							continue
+						}
+						lhs = append(lhs, mkTarget(k))
+						rhs = append(rhs, r)
+					}
+					if len(lhs) > 0 {
+						out = append(out, &ast.AssignStmt{Lhs: lhs, TokPos: x.Pos(), Tok: token.ASSIGN, Rhs: rhs})
+					}
+				}
+				return out
+			case *ast.IfStmt:
+				if len(returnsIn(x)) == 0 {
+					out = append(out, s)
+					continue
+				}
+				endsInReturn := false
+				if n := len(x.Body.List); n > 0 {
+					_, endsInReturn = x.Body.List[n-1].(*ast.ReturnStmt)
+				}
+				x.Body.List = conv(x.Body.List)
+				if endsInReturn {
+					rest := conv(list[i+1:])
+					if len(rest) > 0 {
+						x.Else = &ast.BlockStmt{Lbrace: x.End(), List: rest, Rbrace: x.End()}
+					}
+					return append(out, x)
+				}
+				out = append(out, x)
+			default:
+				out = append(out, s)
+			}
+		}
+		return out
+	}
+	res := append([]ast.Stmt{}, binds...)
+	return append(res, conv(copied)...)
+}
+
+// guardOnlyVals: like guardOnly for functions with n results (bare returns allowed when the results are named).
+func guardOnlyVals(list []ast.Stmt, n int, named bool) bool {
+	for i, s := range list {
+		switch x := s.(type) {
+		case *ast.ReturnStmt:
+			if i != len(list)-1 || !(len(x.Results) == n || (named && len(x.Results) == 0)) {
+				return false
+			}
+		case *ast.IfStmt:
+			if len(returnsIn(x)) == 0 {
+				continue
+			}
+			if x.Else != nil || !guardOnlyVals(x.Body.List, n, named) {
+				return false
+			}
+		default:
+			if len(returnsIn(s)) > 0 {
+				return false
+			}
+		}
+	}
+	// the list must end in a return (all paths return)
+	return true
 }
